@@ -397,6 +397,69 @@ def r6_997_counter(ctx):
     yield Ob('error_997:error_997_visitor.visit_gs_pre st_loop_count += 1 per ST', ok, ctx.floc(f), '' if ok else 'changed')
 
 
+def _seg_literal_id(call):
+    if isinstance(call, ast.Call) and A.call_target(call)[1] == 'Segment' and call.args:
+        t = call.args[0]
+        while isinstance(t, ast.BinOp):
+            t = t.left
+        if A.is_str(t):
+            return t.value.split('*')[0]
+    return None
+
+
+def _written_ids(f, g, nd, RD):
+    """segment ids written by self._write(...) / self.wr.Write(...) calls at CFG node nd; a variable is resolved
+    through the definitions that reach the call"""
+    IN, DEFS = RD
+    out = set()
+    for x in g.walk_exprs(nd):
+        if isinstance(x, ast.Call) and A.call_target(x) in (('self', '_write'), ('self.wr', 'Write')) and x.args:
+            a = x.args[0]
+            sid = _seg_literal_id(a)
+            if sid:
+                out.add(sid)
+            elif isinstance(a, ast.Name):
+                for d in (IN.get(nd.id) or {}).get(a.id, ()):
+                    if d == -1:
+                        continue
+                    for nm, v in DEFS[d]:
+                        if nm == a.id and v is not None and not isinstance(v, tuple):
+                            sid = _seg_literal_id(v)
+                            if sid:
+                                out.add(sid)
+            elif path_of(a):
+                sid = _sink_segment(f, path_of(a))
+                if sid != path_of(a):
+                    out.add(sid)
+    return out
+
+
+def r7_envelope_writes_unconditional(ctx):
+    """each hook writes its envelope segments on EVERY path to its normal exit: an acknowledgement whose ST/AK1 is
+    skipped for some group while the matching AK9/SE is still written is not a well formed interchange"""
+    want = {'error_997_visitor': {'visit_root_pre': ('ISA', 'GS'), 'visit_root_post': ('GE', 'IEA'), 'visit_gs_pre': ('ST', 'AK1'),
+                                  'visit_gs_post': ('AK9', 'SE'), 'visit_st_pre': ('AK2',), 'visit_st_post': ('AK5',)},
+            'error_999_visitor': {'visit_root_pre': ('ISA', 'GS'), 'visit_root_post': ('GE', 'IEA'), 'visit_gs_pre': ('ST', 'AK1'),
+                                  'visit_gs_post': ('AK9', 'SE'), 'visit_st_pre': ('AK2',), 'visit_st_post': ('IK5',)}}
+    for mod, cname in VISITORS:
+        for hook, ids in sorted(want[cname].items()):
+            f = ctx.func(mod, cname + '.' + hook)
+            g = ctx.cfg(f)
+            from ..cfg import reaching_defs
+            RD = reaching_defs(g)
+            writes = {nd.id: _written_ids(f, g, nd, RD) for nd in g.nodes}
+            for sid in ids:
+                req = {i_ for i_, w in writes.items() if sid in w}
+                if not req:
+                    yield Ob('%s:%s.%s writes %s on every path' % (mod, cname, hook, sid), False, ctx.floc(f), 'no write of a %s segment found' % sid)
+                    continue
+                path = g.find_path(g.entry, lambda n: n is g.exit, blocked=lambda n: n.id in req)
+                yield Ob('%s:%s.%s writes %s on every path' % (mod, cname, hook, sid), path is None, ctx.floc(f),
+                         '' if path is None else 'the hook can finish without writing %s (through line %s) while the other hooks still write '
+                         'their part of the envelope' % (sid, [n.lineno for n in path if n.lineno][-1:]),
+                         detail={'path': [repr(n) for n in (path or [])][-5:]})
+
+
 RULES = [
     Rule('C06.R1', 'who may write to the acknowledgement stream', r1_who_writes, floor=2),
     Rule('C06.R2', 'GS08/ST03 written are constants selectable through maps.xml and accepted by the 997/999 map', r2_version_keys, floor=3),
@@ -404,4 +467,5 @@ RULES = [
     Rule('C06.R4', 'no partial output: guarded dict lookups, guarded None dereferences in the visitors', r4_no_partial_output, floor=2),
     Rule('C06.R5', 'set control numbers: incremented once per group, one format', r5_st_control, floor=3),
     Rule('C06.R6', '997 hand-kept counters: ST resets, SE = count+1, GE/IEA from loop counters', r6_997_counter, floor=6),
+    Rule('C06.R7', 'every hook writes its envelope segments on every path to its normal exit', r7_envelope_writes_unconditional, floor=14),
 ]
